@@ -625,6 +625,12 @@ func runCase(c string) string {
 	if f[0] == "ftype" {
 		return runFtype(f)
 	}
+	if f[0] == "ovl" {
+		return runOvl(f)
+	}
+	if f[0] == "nm" {
+		return runNm(f)
+	}
 	if len(f) != 13 || f[0] != "c18" {
 		return "unknown-case"
 	}
@@ -902,6 +908,8 @@ func gen(r *vh.Rand, tier string) []string {
 	out = append(out, genConc(r, tier)...)
 	out = append(out, genSecs(r, tier)...)
 	out = append(out, genSets(r, tier)...)
+	out = append(out, genOvl(r, tier)...)
+	out = append(out, genNm(r, tier)...)
 	return out
 }
 
